@@ -564,7 +564,8 @@ func runBuf(c *ctx) {
 				if dwell {
 					up, pdr, action = s.up, 1, []uint16{0x04, 0x0c}[r.intn(2)]
 				}
-				plen := []int{1, 20, 60, 1400}[r.intn(4)]
+				// incl. inner packets at and around the MTU: the encapsulation (12 or 16 octets) comes on top
+				plen := []int{1, 20, 60, 1400, 1484, 1485, 1488, 1489, 1500, 2000}[r.intn(10)]
 				if r.chance(6) {
 					plen = 0
 				}
